@@ -52,6 +52,10 @@ class Context:
 
     def _locked(self, name, produce, check):
         os.makedirs(self.dir, exist_ok=True)
+        try:
+            os.utime(self.dir, None)          # in use now: prune_cache leaves recently used directories alone
+        except OSError:
+            pass
         lockf = open(os.path.join(self.dir, name + '.lock'), 'w')
         fcntl.flock(lockf, fcntl.LOCK_EX)
         try:
@@ -154,7 +158,7 @@ class Context:
         return open(os.path.join(self.repo, 'README.md'), encoding='utf-8').read()
 
 
-def prune_cache(keep=6):
+def prune_cache(keep=8):
     """keep the cache small (disk is limited)"""
     base = os.path.join(WORK, 'cache')
     if not os.path.isdir(base):
@@ -164,8 +168,8 @@ def prune_cache(keep=6):
     now = time.time()
     for mt, d in ds[:-keep]:
         # never under another check that is running at the same time (checks may be started in parallel): a directory that was
-        # written in the last half hour may be in use
-        if now - mt < 1800:
+        # written or used in the last ten minutes may be in use
+        if now - mt < 600:
             continue
         shutil.rmtree(os.path.join(base, d), ignore_errors=True)
 
